@@ -370,6 +370,30 @@ def r6_pairing_order_and_targets(idx, r):
     displacement_rotation(idx, r)
 
 
+def r7_era_reset_only_on_change(idx, r):
+    """ALL_DEFINITIONS.resetAssignmentFlag(SINCE_LAST_GEOMETRY_TRANSFORMATION) starts a new 'assigned since the last transformation' era; the
+    third-to-full conversion scales exactly the parameters assigned in the current era.  A changer method that resets the flag although it
+    did not change the geometry (nothing added / nothing removed) makes every parameter look unassigned: the next conversion scales nothing on
+    the centre assembly.  Each reset must therefore lie behind a test of what the method actually added or removed."""
+    n = 0
+    m = idx.module(GC)
+    for f in m.all_funcs():
+        for c in iter_calls(f.node):
+            if call_attr(c) == "resetAssignmentFlag" and any("SINCE_LAST_GEOMETRY_TRANSFORMATION" in norm(a) for a in c.args):
+                n += 1
+                conds = [norm(t) for t, p in path_conditions(f.node, c) if p]
+                changed = any(("_newAssembliesAdded" in t or "Removed" in t or "removed" in t or "assembliesToRemove" in t or "edgeAssemblies" in t) for t in conds)
+                early = [x for x in walk_local(f.node) if isinstance(x, ast.Return) and x.lineno < c.lineno]
+                if f.name == "addEdgeAssemblies":
+                    r.require(changed, f"{f.qualname}:era-reset-only-after-a-change", f, node=c,
+                              msg="the assignment-flag era is reset even when no edge assembly was added (a core without cells on the symmetry lines): every parameter then counts as "
+                                  "'not assigned since the last transformation' and the next third-to-full conversion does not triple the centre assembly's volume-integrated parameters")
+                else:
+                    r.ok(f"{f.qualname}:era-reset", f, node=c)
+    if n < 1:
+        raise AnalysisError(f"only {n} resets of the SINCE_LAST_GEOMETRY_TRANSFORMATION flag found in the geometry converters")
+
+
 def run(idx, chk):
     chk.explanation = (
         "C13: in ThirdCoreHexToFullCoreChanger.convert every symmetric location gets exactly one deep-copied, uniquely named, rotated and recorded "
@@ -391,3 +415,5 @@ def run(idx, chk):
                  necessary="'undoing the conversion returns the core to its previous state' - also for a core without a centre assembly")
     chk.run_rule("R13.6", "symmetry-line assemblies are paired by ring; each recombined multigroup flux rewrites its own scalar; displacement turns with the copy", lambda r: r6_pairing_order_and_targets(idx, r), floor=8,
                  necessary="add-edge / scale / remove-edge restores every block's parameters; every new assembly is its source rotated into place")
+    chk.run_rule("R13.7", "addEdgeAssemblies starts a new assignment-flag era only when it actually added assemblies", lambda r: r7_era_reset_only_on_change(idx, r), floor=1,
+                 necessary="volume-integrated totals triple on conversion whatever no-op operations preceded it")
